@@ -356,6 +356,7 @@ class Check:
     wraps = ()
     lib = "libq.a"         # "libqw.a": allocator calls of the library go through harness/allocwrap.h
     lean_targets = ()      # extra lake targets besides Props.<prop>
+    max_corr = 3           # correspondence breaks after which streams run implementation + oracle only
     also_audit = ()        # obligations proved in other Props modules (fully qualified theorem names)
     multi = False          # streams bring their own harness/module (no default harness)
     trusted_base = ["Lean 4.33 kernel", "axioms propext / Classical.choice / Quot.sound only",
@@ -470,6 +471,10 @@ class Check:
                              lib=st.lib or self.lib)
 
     def run_stream(self, st, have_driver):
+        # after a few correspondence breaks the model comparison (and its shrinking runs) adds
+        # nothing: keep searching with the implementation + property oracle only
+        if len([v for v in self.violations if v[0] == "corr"]) >= self.max_corr:
+            have_driver = False
         text = "\n".join(st.ops) + "\n"
         hbin = self.stream_bin(st)
         module = None if st.nomodel else (st.module or self.module)
